@@ -6,6 +6,7 @@
                                         _fix_unique                            (registry line format / parse rule)
                                         _execute_external                      (reuse decision)
                                         clean_up                               (file selection rule)
+                                        CalculationExecutorO.__init__/run      (name unique before the trajectory lookup)
     autode/species/species.py        :: Species.__str__
     autode/constraints.py            :: Constraints.__str__, Constraints.cartesian
     autode/wrappers/*.py             :: input_filename_for / output_filename_for  (file names = name + extension)
@@ -382,6 +383,40 @@ def registry_rules(cls, tree):
     return toks, hyphen
 
 
+def opt_executor_rules(tree):
+    """CalculationExecutorO: the name is made unique when the executor is built, BEFORE run() looks
+    for a saved trajectory under that name; -> the trajectory suffix."""
+    cls = find_class(tree, "CalculationExecutorO", "executors.py")
+    init = [ast.unparse(st) for st in strip_doc(find_func(cls.body, "__init__", "CalculationExecutorO").body)]
+    if "self._fix_unique()" not in init or not init[0].startswith("super().__init__("):
+        raise Untranslatable("CalculationExecutorO.__init__ no longer makes the name unique (self._fix_unique())")
+    run = find_func(cls.body, "run", "CalculationExecutorO")
+    rsrc = norm(ast.unparse(run))
+    if "_fix_unique" in rsrc:
+        raise Untranslatable("CalculationExecutorO.run: name changed inside run()")
+    body = [st for st in strip_doc(run.body) if not isinstance(st, (ast.Import, ast.ImportFrom))]
+    first = body[0]
+    if not (isinstance(first, ast.If) and ast.unparse(first.test) == "self._opt_trajectory_exists"
+            and norm(ast.unparse(first)).startswith(norm(
+                "if self._opt_trajectory_exists: self.optimiser = CRFOptimiser.from_file(self._opt_trajectory_name) "
+                "self._set_properties_from_optimiser() return None"))):
+        raise Untranslatable("CalculationExecutorO.run: trajectory reload shortcut changed")
+    if "name=self._opt_trajectory_name" not in rsrc:
+        raise Untranslatable("CalculationExecutorO.run: the optimiser no longer saves to _opt_trajectory_name")
+    tn = find_func(cls.body, "_opt_trajectory_name", "CalculationExecutorO")
+    rets = [n for n in ast.walk(tn) if isinstance(n, ast.Return)]
+    ps = fstring_pieces(rets[0].value, "_opt_trajectory_name") if len(rets) == 1 else []
+    if len(ps) != 2 or ps[0] != ("expr", "self.name", -1) or ps[1][0] != "lit":
+        raise Untranslatable("_opt_trajectory_name is not f'{self.name}<suffix>'")
+    te = norm(ast.unparse(find_func(cls.body, "_opt_trajectory_exists", "CalculationExecutorO")))
+    if "return os.path.exists(self._opt_trajectory_name)" not in te:
+        raise Untranslatable("_opt_trajectory_exists changed")
+    tnorm = norm(ast.unparse(find_func(cls.body, "terminated_normally", "CalculationExecutorO")))
+    if "return self._opt_trajectory_exists or self.molecule.n_atoms == 1" not in tnorm:
+        raise Untranslatable("CalculationExecutorO.terminated_normally changed")
+    return ps[1][1]
+
+
 def ext_table():
     rows, by_class = [], {}
     files = sorted(glob.glob(os.path.join(REPO, "autode/wrappers/*.py")))
@@ -439,6 +474,7 @@ def main():
     rule = reuse_rule(cls)
     mrule = cleanup_rule(cls)
     toks, hyphen = registry_rules(cls, tree)
+    trj = opt_executor_rules(tree)
     exts = ext_table()
     sha = hashlib.sha256((esrc + ssrc + csrc).encode()).hexdigest()
     L = ["(* GENERATED by /verif/tr/translate_c15.py from autode/calculations/executors.py,",
@@ -458,6 +494,8 @@ def main():
          f"Definition tokens_required : nat := {toks}.\n",
          "(* _string_without_leading_hyphen: '-x' becomes '_-x' *)",
          f"Definition hyphen_rule : bool := {hyphen}.\n",
+         "(* CalculationExecutorO._opt_trajectory_name = f'{self.name}' + *)",
+         f"Definition trj_suffix : string := {cstr(trj)}.\n",
          "(* (method name, input extension, output extension) from input/output_filename_for *)",
          "Definition ext_table : list (string * string * string) :=\n  [" +
          ";\n   ".join(f"({cstr(a)}, {cstr(b)}, {cstr(c)})" for a, b, c in exts) + "].\n"]
@@ -468,7 +506,7 @@ def main():
         with open(OUT, "w") as f:
             f.write(txt)
     return {"id_fields": fields, "reuse_rule": rule, "match_rule": mrule, "tokens_required": toks,
-            "hyphen_rule": hyphen, "ext_table": exts, "sha256": sha}
+            "hyphen_rule": hyphen, "trj_suffix": trj, "ext_table": exts, "sha256": sha}
 
 
 if __name__ == "__main__":
